@@ -117,7 +117,7 @@ def judge(job):
         except Exception as e:      # noqa: BLE001
             out.append((rec, ver, xml, f"raised {type(e).__name__}: {e}"[:200]))
             continue
-        declared = [nd for nd in nodes if nd["decl"] != "none"]
+        declared = [nd for nd in nodes if nd["decl"] not in ("none", "wild")]     # "wild": admitted by a wildcard
         # the hook is called in document order for every element that has a declaration
         reported = [x for tag, x in seen if x.parent is not None or x.name in s.elements]
         exp = [decls[nd["decl"]] for nd in declared]
@@ -167,6 +167,28 @@ def judge(job):
             if perr != werr:
                 out.append((rec, ver, xml, f"iter_errors(path={path!r}) = {perr}, whole-document errors in that "
                             f"subtree = {werr}"))
+        # (c') wildcard-terminated paths: all children of an element at once
+        for nd in declared:
+            p = tuple(nd["path"])
+            if not any(tuple(x["path"][:-1]) == p for x in nodes if x["path"]):
+                continue
+            path = spellings(steps[p])[0][0] + "/*"
+            n += 1
+            try:
+                perr = sorted(ekey(e, ipath) for e in s.iter_errors(root, path=path, namespaces=NS))
+            except Exception as e:      # noqa: BLE001
+                out.append((rec, ver, xml, f"iter_errors(path={path!r}) raised {type(e).__name__}: {e}"[:200]))
+                continue
+            werr = sorted(k for k in (ekey(e, ipath) for e in full_errors)
+                          if k[0] is not None and len(k[0]) > len(p) and k[0][:len(p)] == p)
+            if perr != werr:
+                # F-C20-b: a selected element that no declaration matches (in the whole document it is an error
+                # of the strict wildcard that admits it) is skipped silently
+                undeclared = {tuple(x["path"]) for x in nodes if x["decl"] == "none" and tuple(x["path"][:-1]) == p}
+                skipped = [k for k in werr if k[0] in undeclared and "not found" in k[1]]
+                fid = "F-C20-b" if skipped and perr == sorted(k for k in werr if k not in skipped) else None
+                out.append((rec, ver, xml, f"iter_errors(path={path!r}) = {perr}, whole-document errors below "
+                            f"that element = {werr}", fid))
         # (d) max_depth
         for k in (1, 2, 3, 4):
             n += 1
@@ -187,6 +209,79 @@ def judge(job):
     return out, n
 
 
+def judge_identity(job):
+    """Partial validation of documents with identity constraints: the errors reported for the selected part
+    are the whole-document errors located in it (constraint on the root or on the intermediate element)."""
+    from checks import c08
+    recs, ver, kind, level = job
+    out = []
+    n = 0
+    s = cm.schema_class(ver)(c08.schema_xsd(1, kind, level, "integer", "attr", "child"))
+    ns = {"t": "urn:T"}
+    for rec in recs:
+        xml = c08.doc_xml(rec["doc"], "integer", "attr")
+        root = ET.fromstring(xml)
+        ipath = vdoc.index_paths(root)
+        try:
+            full = [ekey(e, ipath) for e in s.iter_errors(root, namespaces=ns)]
+        except Exception as e:      # noqa: BLE001
+            out.append((rec, ver, xml, f"raised {type(e).__name__}: {e}"[:200]))
+            continue
+        selections = [("/t:r/t:s", [(i + 1,) for i in range(len(rec["doc"]))], False),
+                      ("t:s", [(i + 1,) for i in range(len(rec["doc"]))], False),
+                      ("/t:r/*", [(i + 1,) for i in range(len(rec["doc"]))], False),
+                      ("/t:r/t:s/*", [(i + 1, j + 1) for i, sc in enumerate(rec["doc"]) for j in range(len(sc))], True),
+                      ("/t:r/t:s/t:k", [(i + 1, j + 1) for i, sc in enumerate(rec["doc"])
+                                         for j, r in enumerate(sc) if r["k"] == "k"], True)]
+        for i in range(len(rec["doc"])):
+            selections.append((f"/t:r/t:s[{i + 1}]", [(i + 1,)], False))
+        for path, roots, rows in selections:
+            n += 1
+            try:
+                perr = [ekey(e, ipath) for e in s.iter_errors(root, path=path, namespaces=ns)]
+            except Exception as e:      # noqa: BLE001
+                out.append((rec, ver, xml, f"iter_errors(path={path!r}) raised {type(e).__name__}: {e}"[:200]))
+                continue
+            want = [k for k in full if k[0] is not None and any(k[0][:len(r)] == r for r in roots)]
+            # the part's own errors must all be there; on top of them only whole-document errors of the
+            # ENCLOSING elements (a key reference is checked when its declaring element ends) may appear
+            enclosing = [k for k in full if k[0] is not None and any(len(k[0]) < len(r) and r[:len(k[0])] == k[0]
+                                                                     for r in roots)]
+            extra = list(perr)
+            missing = []
+            for k in want:
+                if k in extra:
+                    extra.remove(k)
+                else:
+                    missing.append(k)
+            pool_ = list(enclosing)
+            invented = []
+            for k in extra:
+                if k in pool_:
+                    pool_.remove(k)
+                else:
+                    invented.append(k)
+            if missing or invented:
+                # F-C20-a: the dangling references of a constraint declared BELOW the root are reported at the
+                # root when the declaring element itself is not part of the selection
+                relocated = (not missing and level == "inner" and rows and
+                             all(k[0] == () and "not found for Xsd" in k[1] and
+                                 any(e[1] == k[1] for e in enclosing) for k in invented))
+                # F-C20-c: a key reference of a constraint declared on an ENCLOSING element is resolved against
+                # the keys inside the selection only (and counted per selection); likewise a duplicate whose first
+                # occurrence lies outside the selection goes unnoticed
+                partial_scope = (level == "outer" and
+                                 all("duplicated value" in k[1] for k in missing) and
+                                 all(k[0] == () and "not found for Xsd" in k[1] for k in invented))
+                if partial_scope and not relocated:
+                    relocated = "c"
+                out.append((rec, ver, xml, f"iter_errors(path={path!r}) = {perr}; whole-document errors in the "
+                            f"selected part = {want}, of the enclosing elements = {enclosing}: missing {missing}, "
+                            f"not explained {invented}",
+                            "F-C20-c" if relocated == "c" else "F-C20-a" if relocated else None))
+    return out, n
+
+
 def run(ctx: Ctx):
     thorough = ctx.tier == "thorough"
     r = ctx.tlc("Validator", "Validator.cfg", constants={"MaxItems": 2, "Double": "FALSE"}, tag="docs")
@@ -197,9 +292,29 @@ def run(ctx: Ctx):
     total = 0
     for bad, n in ctx.pmap(judge, jobs):
         total += n
-        for rec, ver, xml, what in bad:
+        for item in bad:
+            rec, ver, xml, what = item[:4]
             ctx.report({"ver": ver, "fault": rec["fault"], "nodes": rec["nodes"], "xml": xml,
-                        "valid": rec["valid"], "observed": what}, f"{ver} {rec['fault']}: {what[:300]}  [{xml}]")
+                        "valid": rec["valid"], "observed": what}, f"{ver} {rec['fault']}: {what[:300]}  [{xml}]",
+                       finding=item[4] if len(item) > 4 else None)
+    # identity constraints under partial validation (rows without ID/IDREF: those are document-wide)
+    from checks import c08
+    ijobs = []
+    for kind, level in (("key", "inner"), ("unique", "inner"), ("key", "outer")):
+        consts = {"NF": 1, "KeyKind": f'"{kind}"', "Level": f'"{level}"', "MaxRows": 3, "MaxScopes": 2,
+                  "RowKinds": '{"k", "f"}'}
+        ri = ctx.tlc("Identity", "Identity.cfg", constants=consts, tag=f"ident-{kind}-{level}", workers=4)
+        irecs = [x for x in ri.json_records() if c08.canonical(x)]
+        if not thorough:
+            irecs = irecs[::2]
+        ijobs += [(irecs[i:i + 40], ver, kind, level) for ver in ("1.0", "1.1") for i in range(0, len(irecs), 40)]
+    for (irecs_, ver, kind, level), (bad, n) in zip(ijobs, ctx.pmap(judge_identity, ijobs)):
+        total += n
+        for item in bad:
+            rec, ver, xml, what = item[:4]
+            ctx.report({"ver": ver, "identity": [kind, level], "doc": rec["doc"], "xml": xml, "observed": what},
+                       f"{ver} identity/{kind}/{level}: {what[:400]}  [{xml}]",
+                       finding=item[4] if len(item) > 4 else None)
     for rec in recs[:: max(1, len(recs) // 2)][:2]:
         ctx.sample({"xml": vdoc.render(rec["nodes"]),
                     "governing": [(n["path"], n["decl"]) for n in rec["nodes"]][:8]})
@@ -207,7 +322,9 @@ def run(ctx: Ctx):
     ctx.exhaustive = thorough
     ctx.rule = ("documents of spec/Validator.tla (valid and single-fault, <= 2 items); for every declared "
                 "element: hook-reported declaration, find() under 4 path spellings, decode/iter_errors with "
-                "path=, and max_depth 1..4; quick takes every 2nd document; both schema classes")
+                "path= (one element, and all children through a path ending in /*), and max_depth 1..4; quick takes "
+                "every 2nd document; both schema classes; plus the key / unique / keyref documents of "
+                "spec/Identity.tla (constraint on the root or on the intermediate element) under 5 path selections")
     ctx.assumptions += ["'nothing changes above the cut': data of elements at depth <= k keeps attributes and "
                         "simple text, children below the cut are dropped; errors are compared for elements "
                         "at depth < k",
